@@ -269,6 +269,11 @@ func c13ErrMatches(text string, f []string) (bool, string) {
 		return exact(fmt.Sprintf("template %v: params %q are unused", f[1], c13List(f[2])))
 	case "check:loop-func":
 		return exact(fmt.Sprintf("template %v: function %s: $%s is not the variable of an enclosing loop", f[1], f[2], f[3]))
+	case "check:loop-func-arity": // C14-loopfunc-shape: not exactly one argument
+		return exact(fmt.Sprintf("template %v: function %s takes the variable of an enclosing loop, got %s arguments", f[1], f[2], f[3]))
+	case "check:loop-func-arg": // C14-loopfunc-shape: the argument is printed by its String(), which the model does not rebuild
+		want := fmt.Sprintf("template %v: function %s: ", f[1], f[2])
+		return strings.HasPrefix(text, want) && strings.HasSuffix(text, " is not the variable of an enclosing loop"), want + "... is not the variable of an enclosing loop"
 	case "check:bad-call-param":
 		return exact(fmt.Sprintf("template %v: unexpected call param type", f[1]))
 	case "global:undefined":
